@@ -12,6 +12,7 @@ import (
 	"sort"
 	"strings"
 	"sync"
+	"sync/atomic"
 	"time"
 
 	"github.com/containerd/nri/pkg/api"
@@ -426,10 +427,28 @@ func runOne(chp **child, sp *Spec) result {
 			return result{herr: "worker: " + reply.Error}
 		}
 		return result{obs: reply.Obs}
-	case <-time.After(caseTimeout):
+	case <-time.After(stallBound()):
+		atomic.AddInt32(&stalls, 1)
 		ch.kill()
 		*chp = nil
 		return result{obs: &Obs{Outcome: "stalled", Msgs: []Msg{}}}
+	}
+}
+
+// stalls counts cases that neither completed nor failed.  The first stall is given the full caseTimeout (it
+// must not be a slow machine); once synchronisation has been seen to hang, later cases are given a minute,
+// and after three stalls twenty seconds: a tree that livelocks is reported in minutes, not after the driver
+// time-out.
+var stalls int32
+
+func stallBound() time.Duration {
+	switch n := atomic.LoadInt32(&stalls); {
+	case n == 0:
+		return caseTimeout
+	case n < 3:
+		return 60 * time.Second
+	default:
+		return 20 * time.Second
 	}
 }
 
